@@ -64,6 +64,7 @@ func vlex3(format ast.Format, program bool, prefix, suffix string, n int, checks
 		}
 	}
 	if checks&vchkTiling != 0 {
+		vlexMarkdown = format == ast.FormatMarkdown
 		vlexTiling(src, toks, err, program)
 	}
 	vreach("end")
@@ -171,7 +172,61 @@ func vlexTiling(src []byte, toks []token, err error, program bool) {
 	if err == nil {
 		vassert(!inCode, "code-closed-at-end-without-error")
 		vassert(next == len(src), "tokens-cover-the-source")
+		vlexNoSyntaxInText(toks)
 	}
+}
+
+// C15: "the only text removed is template syntax itself" also means that
+// template syntax is never passed through as text: in a source that scans
+// without error, a text token contains no "{{", "{%" or "{#" unless it is the
+// content of a raw block.
+//
+// In Markdown a backslash escapes the character that follows it (the lexer
+// implements CommonMark's backslash escapes on purpose), so there "\{" is text.
+var vlexMarkdown bool
+
+func vlexNoSyntaxInText(toks []token) {
+	rawStmt, afterRaw := false, false
+	for _, tok := range toks {
+		switch {
+		case tok.typ == tokenRaw:
+			rawStmt = true
+		case visCodeEnd(tok.typ):
+			afterRaw, rawStmt = rawStmt, false
+		case tok.typ == tokenText:
+			if !afterRaw {
+				for i := 0; i+1 < len(tok.txt); i++ {
+					if tok.txt[i] == '<' && len(tok.txt)-i >= 9 && string(tok.txt[i:i+9]) == "<![CDATA[" {
+						break // a CDATA section is passed through unparsed, by design
+					}
+					if tok.txt[i] == '{' && !(vlexMarkdown && i > 0 && tok.txt[i-1] == '\\') {
+						c := tok.txt[i+1]
+						vassert(c != '{' && c != '%' && c != '#', "no-template-syntax-inside-text")
+					}
+				}
+			}
+			afterRaw = false
+		default:
+			if !visCodeStart(tok.typ) || !afterRaw {
+				afterRaw = false
+			}
+		}
+	}
+}
+
+// C15: a raw block ends at its {% end %} whatever the content is: the source
+// "{% raw %}" + content + "{% end %}" scans without error and ends with the
+// end statement (content: "{%" followed by arbitrary bytes).
+func vlexRawEnd(n int) {
+	sym := vsym_bytes(n)
+	lead := []string{"", "{%", "x{% ", "{"}[vsym_choice(4)]
+	src := append(append([]byte("{% raw %}"+lead), sym...), "{% end %}"...)
+	toks, err := vlexAll(src, ast.FormatHTML, false, false)
+	vassert(err == nil, "raw-block-with-end-scans")
+	k := len(toks)
+	vassert(k >= 4 && toks[k-1].typ == tokenEOF && toks[k-2].typ == tokenEndStatement && toks[k-3].typ == tokenEnd && toks[k-4].typ == tokenStartStatement, "raw-block-ends-at-its-end-statement")
+	vassert(toks[k-4].pos.Start == len(src)-len("{% end %}"), "end-statement-is-the-last-one")
+	vreach("end")
 }
 
 type vseed struct {
@@ -210,6 +265,10 @@ var vtextSeeds = []vseed{
 	{ast.FormatMarkdown, false, "\t", ""},
 	{ast.FormatMarkdown, false, "a\n\t", ""},
 	{ast.FormatJS, false, "\"", ""},
+	{ast.FormatJS, false, "\"\\", "{{ a }}\""},
+	{ast.FormatHTML, false, "<script>'\\", "{{ a }}'"},
+	{ast.FormatCSS, false, "'\\", "{{ a }}'"},
+	{ast.FormatJSON, false, "\"\\", "{{ a }}\""},
 	{ast.FormatCSS, false, "'", ""},
 	{ast.FormatJSON, false, "\"", ""},
 }
@@ -277,6 +336,8 @@ func vh_c15_lex_md_q()     { vlex(ast.FormatMarkdown, false, "", 4, vchkTiling) 
 func vh_c15_lex_text_q()   { vlex(ast.FormatText, false, "", 4, vchkTiling) }
 func vh_c15_lex_tseeds_q() { vlexSeeds(vtextSeeds, 3, vchkTiling) }
 func vh_c15_lex_cseeds_q() { vlexSeeds(vcodeSeeds, 2, vchkTiling) }
+func vh_c15_lex_rawend_q() { vlexRawEnd(2) }
+func vh_c15_lex_rawend_t() { vlexRawEnd(4) }
 
 func vh_c15_lex_html_t()   { vlex(ast.FormatHTML, false, "", 5, vchkTiling) }
 func vh_c15_lex_md_t()     { vlex(ast.FormatMarkdown, false, "", 5, vchkTiling) }
